@@ -40,6 +40,8 @@ type matcherSpec struct {
 
 const hostileChars = "<>\"=`\x00\x07;&\u00a0\uff1c\n\u00b2\u0661\u2167\u017f"
 
+const regexMeta = "|:?()[]*+.^$\\{},-#"
+
 func kwRecog(words ...string) func(string) bool {
 	return func(s string) bool {
 		for _, w := range words {
@@ -302,6 +304,49 @@ func runC19(c *run.Ctx) {
 			}
 		}
 		rec()
+		// regular-expression metacharacters (what a slip in the pattern's own syntax lets through as a literal):
+		// every string of length <=3 over alphabet + metacharacters, and every single and double edit of the examples
+		// that inserts or substitutes a metacharacter
+		wide := []rune(m.alphabet + hostileChars + regexMeta)
+		{
+			buf := make([]rune, 0, 3)
+			var rec func()
+			rec = func() {
+				if c.Expired() {
+					return
+				}
+				judge(string(buf), false)
+				if len(buf) == 3 {
+					return
+				}
+				for _, r := range wide {
+					buf = append(buf, r)
+					rec()
+					buf = buf[:len(buf)-1]
+				}
+			}
+			rec()
+		}
+		metaEdits := func(s []rune, fn func([]rune)) {
+			for i := 0; i <= len(s); i++ {
+				for _, r := range []rune(regexMeta) {
+					fn(append(append(append([]rune{}, s[:i]...), r), s[i:]...))
+					if i < len(s) && r != s[i] {
+						t := append([]rune{}, s...)
+						t[i] = r
+						fn(t)
+					}
+				}
+			}
+		}
+		for _, ex := range m.examples {
+			metaEdits([]rune(ex), func(t []rune) {
+				judge(string(t), true)
+				if len(ex) <= 12 {
+					metaEdits(t, func(u []rune) { judge(string(u), true) })
+				}
+			})
+		}
 		// edits of the documented examples
 		edits := func(s []rune, fn func([]rune)) {
 			for i := 0; i <= len(s); i++ {
